@@ -1631,6 +1631,21 @@ example : IdxInv exBase ∧ QInv exBase ∧ (SiInv exBase ∧ IdInv exBase) ∧
   · have : (run cfg exBase exBefore).votes = [] := rfl
     rw [this] at hp; cases hp
 
+/-! ### other readings of the message-server program (what `handler_program_as_modelled` excludes) -/
+
+/-- the order of the two loops matters: with `execute-all` before `validate-all` the staking check would meet the
+delegations it has just moved under the target and refuse every source that holds one -/
+example : (∃ s', migrateProg cfg Gen.C14.handlerOrder Gen.C14.migrateHandlers exState 1 11 true = .ok s') ∧
+    migrateProg cfg ["check-record-from", "check-record-to", "check-from-account", "execute-all", "validate-all", "set-record"]
+      Gen.C14.migrateHandlers exState 1 11 true = .error .toStaking :=
+  ⟨⟨_, rfl⟩, rfl⟩
+
+/-- and so does the wiring: without the gov handler among the registered ones the proposer of a proposal still in its
+deposit period migrates -/
+example : migrateProg cfg Gen.C14.handlerOrder Gen.C14.migrateHandlers exState 2 12 true = .error .gov ∧
+    ∃ s', migrateProg cfg Gen.C14.handlerOrder ["NewBankMigrate", "NewDistrStakingMigrate"] exState 2 12 true = .ok s' :=
+  ⟨rfl, _, rfl⟩
+
 /-! ### non-vacuity of the gov invariant theorems -/
 
 /-- a state without staking records and without proposals: one validator, two funded users with key, funded pools -/
